@@ -114,3 +114,106 @@ class Check(Prop):
         def fmt(case, v, params):
             return bool(v.get("format")) and re.search(params["pattern"], v.get("bad_line", "")) is not None
         return {"c01_site": site, "c01_format": fmt}
+
+
+def go_unquote(q):
+    """Decode a Go double-quoted string literal into bytes."""
+    assert q[0] == '"' and q[-1] == '"'
+    out = bytearray()
+    i = 1
+    n = len(q) - 1
+    simple = {"n": 10, "t": 9, "r": 13, "\\": 92, '"': 34, "'": 39, "a": 7, "b": 8, "f": 12, "v": 11, "0": 0}
+    while i < n:
+        c = q[i]
+        if c != "\\":
+            out += c.encode("utf8")
+            i += 1
+            continue
+        e = q[i + 1]
+        if e == "x":
+            out.append(int(q[i + 2:i + 4], 16))
+            i += 4
+        elif e == "u":
+            out += chr(int(q[i + 2:i + 6], 16)).encode("utf8")
+            i += 6
+        elif e == "U":
+            out += chr(int(q[i + 2:i + 10], 16)).encode("utf8")
+            i += 10
+        elif e in "01234567" and i + 3 < n + 1 and q[i + 1:i + 4].isdigit():
+            out.append(int(q[i + 1:i + 4], 8))
+            i += 4
+        else:
+            out.append(simple.get(e, ord(e)))
+            i += 2
+    return bytes(out)
+
+
+def extra_stage(repo, bins, tier, seed):
+    """Coverage-guided stage (thorough only): native `go test -fuzz FuzzVerifAnalyze` on a scratch copy of the tree.
+
+    The target resets all global state, analyses the input in-process through the mirrored rounds and fails on a panic or on
+    exceeding its own watchdog. A crasher is decoded and handed back to the ordinary path (confirmation on the guard-off binary,
+    known-finding matching). Native fuzzing cannot be pinned to a seed: the saved crasher is the reproducible unit."""
+    import os
+    import shutil
+    import subprocess
+    import tempfile
+    from .. import build as buildmod
+    from .. import run as runmod
+    if tier != "thorough":
+        return {"fuzz_seconds": 0, "note": "native fuzz stage runs in the thorough tier only"}, None
+    secs = int(os.environ.get("VERIF_FUZZ_SECONDS", "300"))
+    work = tempfile.mkdtemp(prefix="c01fuzz-", dir=runmod.tmp_root())
+    try:
+        dst = os.path.join(work, "tree")
+        shutil.copytree(repo, dst, ignore=shutil.ignore_patterns(".git", "*.rb", "*_test.go", "image", "docs", "example", "skills"))
+        shutil.copy(os.path.join(repo, "verif_hooks_test.go"), dst)
+        shutil.copy(os.path.join(repo, "cmd", "rbs2json", "rbs_ast.rb"), os.path.join(dst, "cmd", "rbs2json", "rbs_ast.rb"))
+        env = buildmod.go_env()
+        env["TI_VERIF_CONFIG_DIR"] = os.path.join(repo, "test", ".ti-config")
+        env["GOCACHE"] = os.environ.get("GOCACHE", os.path.expanduser("~/.cache/go-build"))
+        # seed corpus: small valid programs from the golden suite plus hostile constants
+        cdir = os.path.join(dst, "testdata", "fuzz", "FuzzVerifAnalyze")
+        os.makedirs(cdir, exist_ok=True)
+        from .. import corpus as corpusmod
+        from .. import regress_inputs
+        seeds = [p.data for p in corpusmod.plain(repo) if len(p.data) < 300][:80] + [x.encode("latin-1") for x in regress_inputs.CRASHERS + regress_inputs.HANGERS]
+        for i, data in enumerate(seeds):
+            q = '"' + "".join(chr(b) if 32 <= b < 127 and b not in (34, 92) else "\\x%02x" % b for b in data) + '"'
+            with open(os.path.join(cdir, "seed%03d" % i), "w") as fh:
+                fh.write("go test fuzz v1\n[]byte(%s)\nuint8(%d)\n" % (q, i % 5))
+        r = subprocess.run(["go", "test", "-tags", "verif", "-run", "^$", "-fuzz", "^FuzzVerifAnalyze$", "-fuzztime", "%ds" % secs, "-parallel", "8", "."],
+                           cwd=dst, env=env, stdout=subprocess.PIPE, stderr=subprocess.STDOUT, text=True)
+        res = {"fuzz_seconds": secs}
+        m = re.findall(r"execs: (\d+)", r.stdout)
+        if m:
+            res["fuzz_execs"] = int(m[-1])
+        m = re.findall(r"new interesting: (\d+)", r.stdout)
+        if m:
+            res["fuzz_new_interesting"] = int(m[-1])
+        if r.returncode == 0:
+            return res, None
+        # find the crasher written by the fuzzer
+        crash = None
+        for n in sorted(os.listdir(cdir)):
+            if n.startswith("seed"):
+                continue
+            txt = open(os.path.join(cdir, n)).read()
+            mm = re.search(r'\[\]byte\(("(?:[^"\\\\]|\\\\.)*")\)\s*\n\s*(?:uint8|byte)\((.*?)\)', txt)
+            if mm:
+                try:
+                    data = go_unquote(mm.group(1))
+                    mv = mm.group(2)
+                    mode = int(mv) if mv.isdigit() else (ord(go_unquote('"' + mv.strip("'") + '"').decode("latin-1")[:1] or "\0"))
+                except Exception:
+                    continue
+                flags = {0: [], 1: ["-i"]}.get(mode % 5, [])
+                crash = {"src": data.decode("latin-1"), "flags": flags, "origin": "native-fuzz"}
+                break
+        if crash is not None:
+            return res, {"case": crash, "violation": {"what": "native fuzz crasher: " + r.stdout[-600:], "site": "unknown", "kind": "other"}, "shrunk": True}
+        if "FAIL" in r.stdout and ("panic" in r.stdout or "Failing input" in r.stdout):
+            return res, {"infra": "fuzz stage failed but no crasher could be decoded:\n" + r.stdout[-1500:]}
+        return res, {"infra": "fuzz stage could not run:\n" + r.stdout[-1500:]}
+    finally:
+        shutil.rmtree(work, ignore_errors=True)
